@@ -125,6 +125,9 @@ func main() {
 			"distinct = (family, message type, version epoch, encoding, mutation class, accept/reject, length, hash of the first bytes)")
 		c.Note("tolerant decoders (value-level idempotence instead of byte identity): version (optional tail fields, relay flag read as any non-zero byte " +
 			"and, below 70001, read although the encoder omits it), addrv2 (entries with unknown / unsupported network ids are skipped as BIP155 requires)")
+		c.Note("observations outside the property as stated (counted, not judged): MsgTx.PkScriptLocs is off by the two marker bytes for a constructed " +
+			"transaction whose first input has no witness while a later one has (counter observed.pkscriptlocs_constructed_mismatch); MsgWTxIdRelay is " +
+			"defined by package wire but not registered in makeEmptyMessage, so it can be written but not read (counter rt.wtxidrelay_not_receivable)")
 		c.Note("transactions without inputs have no round trip in the BIP144 decoding mode (an input count of zero is the segwit marker): they are " +
 			"only exercised in the original format")
 
